@@ -10,8 +10,48 @@ from harness.implenv import Net, make_tub, quiet, pems_sorted, Referenceable
 from foolscap.referenceable import SturdyRef
 import foolscap.negotiate as neg
 import foolscap.connection as fconn
+from zope.interface import implementer
+from foolscap.ipb import IConnectionHintHandler
 
 NAMES = ("M", "S")
+
+# location hints that make TubConnector.connect() fail SYNCHRONOUSLY (before getBrokerForTubRef has returned), by kind:
+#   none        the FURL has no hints at all (legal: furl.decode_furl)
+#   unknown     hints of a type nobody registered a handler for (tor: / i2p: on a plain Tub)
+#   nocolon     a hint without a colon (InvalidHintError "no colon")
+#   legacy      an old-style host:port hint = tcp:, whose handler was removed (removeAllConnectionHintHandlers)
+#   ghost       a registered handler whose hint_to_endpoint raises (here: the fake: handler asked for an unknown host)
+#   refused     a registered handler whose endpoint refuses at once (the hint IS valid: the failure is the refusal, not
+#               NoLocationHintsError)
+#   mixed       several of these together
+SYNC_BAD_HINTS = {
+    "none": [],
+    "unknown": ["tor:abcdefghij234567.onion:80", "i2p:xyz.b32.i2p"],
+    "nocolon": ["nowhere"],
+    "legacy": ["127.0.0.1:9"],
+    "ghost": ["fake:ghost:1"],
+    "refused": ["dead:end:1", "dead:end:2"],
+    "mixed": ["tor:abcdefghij234567.onion:80", "fake:ghost:1", "dead:end:1", "nowhere"],
+}
+
+
+class _RefusingEndpoint:
+    def connect(self, factory):
+        from twisted.internet import defer
+        from twisted.internet.error import ConnectionRefusedError
+        return defer.fail(failure.Failure(ConnectionRefusedError()))
+
+
+@implementer(IConnectionHintHandler)
+class RefusingHandler:
+    """connection-hint handler for `dead:` hints: a valid endpoint that refuses the connection at once"""
+
+    def hint_to_endpoint(self, hint, reactor, update_status):
+        return _RefusingEndpoint(), "dead"
+
+
+def add_dead_handler(t):
+    t.addConnectionHintHandler("dead", RefusingHandler())
 
 
 class Target(Referenceable):
@@ -88,6 +128,7 @@ class World:
             t = make_tub(self.net, x, self.pem[x])
         else:
             t = make_tub_unstarted(self.net, x, self.pem[x])
+        add_dead_handler(t)
         self.tubid.setdefault(x, t.tubID)
         t.registerReference(Target(), name="obj")
         if self.handle_old is not None:
@@ -110,7 +151,11 @@ class World:
         self.name_links()
 
     def furl(self, x, nhints):
-        hints = ",".join("fake:%s:%d" % (x, i + 1) for i in range(nhints))
+        """nhints: how many good hints -- or an explicit list of hint strings (SYNC_BAD_HINTS: hints that fail at once)"""
+        if isinstance(nhints, (list, tuple)):
+            hints = ",".join(nhints)
+        else:
+            hints = ",".join("fake:%s:%d" % (x, i + 1) for i in range(nhints))
         return "pb://%s@%s/obj" % (self.tubid[x], hints)
 
     def links_of(self, x):
@@ -560,6 +605,10 @@ class Tracer:
         elif kind == "lookup":
             w.lookup(st[1], st[2], full=False)
             ops = [("GetRef", st[1])]
+        elif kind == "lookupbad":
+            # a FURL whose hints all fail at once: the model's derived operation (Converge.nohints_ops)
+            w.lookup(st[1], SYNC_BAD_HINTS[st[2]], full=False)
+            ops = [("GetRefNoHints", st[1])]
         elif kind == "deliver":
             i, side = st[1], st[2]
             l = w.net.links[i]
@@ -592,7 +641,8 @@ class Tracer:
         raise RuntimeError("no quiescence")
 
 
-def random_trace(rng, nsteps, p_restart=0.03, p_cut=0.06, p_timeout=0.04, p_lookup=0.14, p_retry=0.05, maxhints=3, p_advance=0.08):
+def random_trace(rng, nsteps, p_restart=0.03, p_cut=0.06, p_timeout=0.04, p_lookup=0.14, p_retry=0.05, maxhints=3, p_advance=0.08,
+                 p_bad=0.2):
     """-> (world, groups) where groups = [(model ops of this step, observation after it, description)]"""
     tr = Tracer()
     w = tr.w
@@ -612,7 +662,10 @@ def random_trace(rng, nsteps, p_restart=0.03, p_cut=0.06, p_timeout=0.04, p_look
         elif r < p_restart + p_cut + p_timeout + p_retry:
             st = ("armretry", rng.choice(NAMES), rng.randint(1, maxhints))
         elif r < p_restart + p_cut + p_timeout + p_retry + p_lookup or not net_steps:
-            st = ("lookup", rng.choice(NAMES), rng.randint(1, maxhints))
+            if rng.random() < p_bad:
+                st = ("lookupbad", rng.choice(NAMES), rng.choice(sorted(SYNC_BAD_HINTS)))
+            else:
+                st = ("lookup", rng.choice(NAMES), rng.randint(1, maxhints))
         else:
             st = rng.choice(net_steps)
         tr.apply(st)
@@ -676,6 +729,33 @@ def scripted_traces():
         tr.apply(("lookup", "S", 1))
         tr.drain()
         tr.apply(("advance", 1000))
+        out.append(tr)
+    for xi, x in enumerate(NAMES):
+        # lookups whose connector fails synchronously (the model's derived operation nohints_ops): alone and followed by
+        # a good lookup; with a retry armed for the errback; while another attempt is in flight (the hints are not looked
+        # at); with a Broker (answered at once), after its loss, with time passing in between
+        kinds = sorted(SYNC_BAD_HINTS)
+        tr = Tracer()
+        for st in [("lookupbad", x, kinds[xi]), ("lookupbad", x, kinds[2 + xi]), ("advance", 9), ("lookup", x, 1)]:
+            tr.apply(st)
+        tr.drain()
+        tr.apply(("lookupbad", x, kinds[4 + xi]))                 # a Broker exists: callback at once
+        tr.apply(("cut", 0))
+        tr.drain()
+        for st in [("lookupbad", other(x), kinds[6 - xi]), ("lookupbad", x, kinds[5 - xi]), ("advance", 200), ("lookup", other(x), 2)]:
+            tr.apply(st)
+        tr.drain()
+        out.append(tr)
+        tr = Tracer()
+        for st in [("armretry", x, 2), ("advance", 3), ("lookupbad", x, kinds[3 - xi]), ("lookupbad", x, kinds[1 + xi]),
+                   ("armretry", x, 1), ("timeout", x), ("lookupbad", other(x), kinds[xi])]:
+            tr.apply(st)
+        tr.drain()
+        tr.apply(("advance", 500))
+        tr.apply(("armretry", x, 1))
+        tr.apply(("restart", x))
+        tr.apply(("lookupbad", x, kinds[6 - xi]))
+        tr.drain()
         out.append(tr)
     # the reachable run of C14_established_displaced_after_master_restart (known finding), step for step: M restarts, S
     # (remembering M's past life) dials two hints, the first is established at both ends, the second offer displaces it
@@ -820,7 +900,12 @@ def scenario(kind, seed, p):
     """one oracle run; returns (signature suffix | None, text, facts)"""
     rng = _random.Random(seed)
     T = fconn.TubConnector.CONNECTION_TIMEOUT
-    w = World(unstarted=[p["who"]], third=True) if kind == "prestart" else World(third=bool(p.get("third")))
+    if kind == "prestart":
+        w = World(unstarted=[p["who"]], third=True)
+    elif kind == "sync-fail":
+        w = World(unstarted=[p["who"]] if p.get("pre") == "unstarted" else (), third=(p.get("target") == "T"))
+    else:
+        w = World(third=bool(p.get("third")))
     facts = dict(kind=kind)
     chunk = None
     if p.get("bytes"):
@@ -1065,6 +1150,108 @@ def scenario(kind, seed, p):
             bad = lookups_problem(w, T) or agreement_problem(w)
             if bad:
                 return (lookup_sig(bad) if "getReference" in bad else "agreement-after-timeout"), bad, facts
+        elif kind == "sync-fail":
+            # TubConnector.connect() can fail SYNCHRONOUSLY, inside Tub.getBrokerForTubRef: none of the FURL's hints is
+            # usable (no hints, unknown type, malformed, the handler raises) or every endpoint refuses at once.  Such a
+            # lookup must fire (with the failure) -- and must leave nothing behind that keeps LATER lookups of the same
+            # Tub from getting a connector and a time-out of their own: per `follow`, a lookup with good hints by the
+            # same Tub (fault-free: must succeed; black hole: must fail AT its own CONNECTION_TIMEOUT), an inbound
+            # connection from the peer, both at once, or a good lookup issued from inside the failing lookup's errback.
+            x = p["who"]
+            y = other(x)
+            tgt = "T" if p.get("target") == "T" else None
+            peer = tgt or y
+            bad = SYNC_BAD_HINTS[p["bad"]]
+            pre = p.get("pre", "fresh")
+            follow = p["follow"]
+            k = p.get("hints", 1)
+            if pre == "peer-restarted":
+                # after a restart of the master, two offers of one slave incarnation (parallel hints, or a cross-connect)
+                # are both accepted: that is the KNOWN finding redundant-attempt-displaces-established/peer-restarted,
+                # reported by the `redundant` family; here one attempt at a time
+                k = 1
+                follow = "good" if follow == "both" else follow
+            if pre in ("lost", "peer-restarted") and not tgt:
+                w.lookup(x if p.get("first_dialer", "who") == "who" else y, 1)
+                settle(w, rng, chunk)
+                if w.live_broker_link(x) is None:
+                    return "no-connection-without-faults", "fault-free first connection failed", facts
+                if pre == "lost":
+                    w.cut(w.net.links[w.live_broker_link(x)[0]])
+                else:
+                    w.restart(y)
+                settle(w, rng, chunk)
+            n0 = len(w.results)
+            re_ = dict(left=1, on="err", hints=k) if follow == "reenter" else None
+            for i in range(p.get("nbad", 1)):
+                w.lookup(x, bad, reenter=re_, target=tgt)
+                if follow == "reenter" and pre != "unstarted":
+                    settle(w, rng, chunk)         # the good lookup made from inside the errback is not black-holed
+                tick(p.get("gap", 0))
+            if pre == "unstarted":
+                if any(r["fired"] for r in w.results):
+                    return "lookup-fired-before-start", "a lookup fired although the Tub was not started", facts
+                w.start(x)
+            nbad = len(w.results)
+            facts["bad_results"] = [list(r["fired"]) for r in w.results[n0:]]
+            if "ok" in w.results[n0]["fired"]:
+                return "harness", "a lookup without a usable hint succeeded although no connection existed", facts
+            if follow in ("good", "both", "blackhole"):
+                w.lookup(x, k, target=tgt)
+            if follow in ("peer", "both") and not tgt:
+                w.lookup(y, p.get("peer_hints", 1))
+            if follow == "blackhole":
+                # nothing is delivered: the good lookup must be errbacked when ITS connector times out
+                tick(T - 1)
+                early = [list(r["fired"]) for r in w.results[nbad:]]
+                tick(2)
+                late = [list(r["fired"]) for r in w.results[nbad:]]
+                facts.update(early=early, final=late)
+                if any(early):
+                    return "lookup-fired-early", "lookup failed before CONNECTION_TIMEOUT although an attempt was pending: %r" % early, facts
+            else:
+                settle(w, rng, chunk)
+                tick(1)
+                settle(w, rng, chunk)
+                if follow == "peer" and not tgt:
+                    w.lookup(x, bad)              # a Broker exists now: the hints do not matter
+                    settle(w, rng, chunk)
+            after = [r for r in w.results[n0:] if r["depth"] > 0 or w.results.index(r) >= nbad]
+            facts["results"] = [(r["fired"][0] if r["fired"] else "not-fired-yet") for r in w.results[n0:]]
+            hung = [r for r in w.results[n0:] if not r["fired"]]
+            if hung:
+                # give it its full CONNECTION_TIMEOUT (and more): does it EVER fire?
+                t = w.tub[x]
+                cons = [(bool(c.active), c.timer is not None and c.timer.active()) for c in t.tubConnectors.values()]
+                drain(w, rng, chunk, T, rounds=3)
+                still = [r for r in w.results[n0:] if not r["fired"]]
+                if still:
+                    r0 = still[0]
+                    return ("lookup-hangs-after-synchronous-connect-failure",
+                            "%s looked up %s through a FURL whose hints all fail at once (%s: %r; result %r), history %r; then (%s) "
+                            "lookup #%d of %s (made at t=%.0f%s) was never answered: still pending %.0f s later, CONNECTION_TIMEOUT "
+                            "is %d s; when it was made %s.tubConnectors held %d connector(s) (active, timer armed)=%r, "
+                            "waitingForBrokers has %d waiter(s)"
+                            % (x, peer, p["bad"], bad, facts["bad_results"], pre, follow, w.results.index(r0), r0["who"], r0["t0"],
+                               ", from inside the errback" if r0["depth"] else "", E.clock.seconds() - r0["t0"], T, x, len(cons), cons,
+                               sum(len(v) for v in t.waitingForBrokers.values())), facts)
+            if follow != "blackhole":
+                # fault-free: the good lookups must have SUCCEEDED (with a simultaneous lookup by the peer, one side may be
+                # refused as a duplicate, but a connection must exist)
+                okset = (["ok"], ["RemoteNegotiationError"]) if follow == "both" else (["ok"],)
+                notok = [r for r in after if r["who"] == x and r["fired"] not in okset]
+                if after and notok:
+                    return ("no-connection-without-faults",
+                            "after a lookup that failed synchronously (%s), a fault-free lookup of %s by %s (%s) has result %r"
+                            % (p["bad"], peer, x, follow, notok[0]["fired"]), facts)
+                if follow != "none" and not tgt and w.live_broker_link(x) is None:
+                    return "no-connection-without-faults", "after a lookup that failed synchronously (%s; then %s) no connection exists" % (
+                        p["bad"], follow), facts
+            drain(w, rng, chunk, T)
+            bad_ = lookups_problem(w, T) or agreement_problem(w)
+            if bad_:
+                return (lookup_sig(bad_) if "getReference" in bad_ else "agreement"), "after a lookup that failed synchronously (%s; then %s): %s" % (
+                    p["bad"], follow, bad_), facts
         elif kind == "blackhole":
             # nothing is ever delivered: the lookup must fail at CONNECTION_TIMEOUT, not hang, not earlier
             x = p["who"]
@@ -1114,7 +1301,7 @@ def run_case(ctx, kind, seed, p, nontrivial=True):
         ctx.fail("oracle/exception-escaped", "an exception escaped from the real Tubs in scenario %s %r: %r" % (kind, p, e),
                  replay=dict(kind=kind, seed=seed, params=p, tb=traceback.format_exc()))
         return None
-    ctx.case([kind, seed if kind in ("faults", "crossfire", "one-sided-cut", "prestart") else 0, p], nontrivial=nontrivial)
+    ctx.case([kind, seed if kind in ("faults", "crossfire", "one-sided-cut", "prestart", "sync-fail") else 0, p], nontrivial=nontrivial)
     ctx.hist("oracle_kind", kind)
     for r in facts.get("results", []) if isinstance(facts.get("results"), list) else []:
         ctx.hist("lookup_result", r if isinstance(r, str) else "/".join(r))
@@ -1180,6 +1367,21 @@ def run_fixed(ctx):
                 run_case(ctx, "prestart", 9700 + qi, dict(who=who, queued=q, peer_lookup=peer_lookup, wait=(qi % 2) * 30,
                                                           late=(1 if qi == 3 else 0), steps=0, bytes=(qi == 2)))
             run_case(ctx, "prestart", 9750 + qi, dict(who=who, queued=q, peer_lookup=1, wait=5, steps=40, bytes=(qi == 4)))
+    # lookups whose TubConnector fails synchronously inside getBrokerForTubRef (no usable hint / refused at once), then
+    # later lookups of the same Tub: every kind of unusable hint x what follows x both Tubs, some histories, a third Tub
+    for who in NAMES:
+        for bi, badk in enumerate(sorted(SYNC_BAD_HINTS)):
+            for fi, follow in enumerate(("good", "blackhole", "peer", "both", "reenter", "none")):
+                run_case(ctx, "sync-fail", 9800 + bi, dict(who=who, bad=badk, follow=follow, hints=1 + (bi + fi) % 3, nbad=1 + (bi + fi) % 2,
+                                                            gap=(fi % 2) * 7, pre="fresh", bytes=(bi == fi)))
+        for pi, pre in enumerate(("lost", "peer-restarted", "unstarted")):
+            for fi, follow in enumerate(("good", "blackhole", "reenter")):
+                run_case(ctx, "sync-fail", 9820 + pi, dict(who=who, bad=sorted(SYNC_BAD_HINTS)[(2 * pi + fi) % len(SYNC_BAD_HINTS)], follow=follow,
+                                                            hints=1 + fi % 2, nbad=1 + pi % 2, gap=0, pre=pre,
+                                                            first_dialer=("who" if fi % 2 else "peer")))
+        for fi, follow in enumerate(("good", "blackhole", "reenter")):
+            run_case(ctx, "sync-fail", 9830 + fi, dict(who=who, bad=("none", "unknown", "refused")[fi], follow=follow, hints=1, nbad=1, gap=0,
+                                                        pre="fresh", target="T"))
     # parallel hints after every history, restarted peers
     for who in NAMES:
         for hist in ("fresh", "both-lost", "dialer-lost-only"):
@@ -1211,6 +1413,13 @@ def run_all(ctx):
         rounds = [(rng.choice(NAMES), rng.randint(1, 3)) for k in range(rng.randint(1, 4))]
         run_case(ctx, "one-sided-cut", seed(), dict(first_dialer=rng.choice(NAMES), rounds=rounds, bytes=(i % 3 == 0),
                                                     third=rng.choice([None, None, "before", "after", "both"])))
+    for i in range(ctx.n(30, 2000)):
+        run_case(ctx, "sync-fail", seed(), dict(who=rng.choice(NAMES), bad=rng.choice(sorted(SYNC_BAD_HINTS)),
+                                                follow=rng.choice(["good", "good", "blackhole", "peer", "both", "reenter", "none"]),
+                                                hints=rng.randint(1, 3), nbad=rng.randint(1, 3), gap=rng.choice([0, 0, 1, 60, 200]),
+                                                pre=rng.choice(["fresh", "fresh", "lost", "peer-restarted", "unstarted"]),
+                                                first_dialer=rng.choice(["who", "peer"]), peer_hints=rng.randint(1, 2),
+                                                target=rng.choice([None, None, None, "T"]), bytes=(i % 4 == 0)))
     for who in NAMES:
         for hist in ("fresh", "both-lost", "dialer-lost-only", "peer-restarted"):
             for hints in (2, 3):
